@@ -39,11 +39,15 @@ type FuncResult struct {
 }
 
 func (v *Verifier) newCtx(key string) (*FnCtx, error) {
-	fd := v.funcs[key]
+	base := key
+	if i := strings.Index(key, "@"); i >= 0 {
+		base = key[:i] // contract variant (e.g. "@ieee"): same function, different contract and number model
+	}
+	fd := v.funcs[base]
 	if fd == nil {
 		return nil, fmt.Errorf("no such function in the loaded packages: %s", key)
 	}
-	pkg := v.funcPkg[key]
+	pkg := v.funcPkg[base]
 	con := v.specs.Contracts[key]
 	if con == nil {
 		con = &Contract{Key: key, Loops: map[int]*LoopSpec{}, Flags: map[string]bool{}, Asserts: map[string][]Clause{}}
@@ -328,6 +332,11 @@ func (v *Verifier) verifyFunc(key string, splitName, splitCase string, splitCond
 		return res
 	}
 	for _, o := range c.obls {
+		if c.ieee && o.Expect == "" && o.Timeout == 0 {
+			// IEEE-754 obligations: only cvc5 decides them here (z3 4.8 and 5.1 time out), in about a minute
+			o.Timeout = 240
+			o.Only = []string{"cvc5"}
+		}
 		q := &Query{Name: o.Name, Kind: o.Kind, Func: c.key, Descr: o.Descr, Pos: o.Pos, Expect: o.Expect, Only: o.Only, Timeout: o.Timeout}
 		if q.Expect == "" {
 			q.Expect = "unsat"
@@ -368,11 +377,15 @@ func (v *Verifier) verifyLemma(ax *Axiom) *FuncResult {
 	env.old = env
 	goal := c.specBool(env, ax.Clause.Expr)
 	c.addObl(&Obligation{Name: key, Kind: "lemma", Descr: "lemma follows from " + strings.Join(ax.Uses, ", "), Pos: ax.Clause.Line, Goal: goal, Clause: ax.Clause.Src})
+	c.addObl(&Obligation{Name: key + "/axioms-consistent", Kind: "vacuity", Descr: "the axioms the lemma uses are not contradictory", Pos: ax.Clause.Line, Goal: "false", Expect: "notunsat", Timeout: 5, Only: []string{"z3-new", "cvc5"}})
 	res.Obls = c.obls
 	res.SpecErrs = c.specErrs
 	prelude := c.prelude()
 	for _, o := range c.obls {
-		q := &Query{Name: o.Name, Kind: o.Kind, Func: key, Descr: o.Descr, Pos: o.Pos, Expect: "unsat", obl: o}
+		q := &Query{Name: o.Name, Kind: o.Kind, Func: key, Descr: o.Descr, Pos: o.Pos, Expect: "unsat", obl: o, Only: o.Only, Timeout: o.Timeout}
+		if o.Expect != "" {
+			q.Expect = o.Expect
+		}
 		q.Text = prelude + fmt.Sprintf("(assert (not %s))\n(check-sat)\n", o.Goal)
 		res.Queries = append(res.Queries, q)
 	}
